@@ -211,6 +211,22 @@ pub fn trigger(name: &str, args: &Value, cfg: &Cfg, history: &[Op], finding: &Va
             let fc = if x["cc"] == true { ccv } else { 0.8 };
             fc * ratio < argf(args, "lobes", 1.5) * (1.0 - ccv)
         }
+        // C02: a cutoff so low (f_cutoff * min(1, ratio) a small fraction of the window's
+        // transition half-width) that the filter is all window: the bare window transform reaches
+        // the rejection figure slightly later than the fitted transition width; the finding is the
+        // few-dB miss right at the stopband edge, nothing larger
+        "cutoff_far_below_window_lobe" => {
+            let x = &finding["x"];
+            let len = x["sinc_len"].as_u64().unwrap_or(0) as usize;
+            let ratio = x["ratio"].as_f64().unwrap_or(1.0);
+            let fc = x["f_cutoff"].as_f64().unwrap_or(1.0);
+            let excess = x["excess_dB"].as_f64().unwrap_or(f64::INFINITY);
+            if !(x["family"] == "sinc" && x["window"] == "BlackmanHarris2" && len >= 8) {
+                return false;
+            }
+            let ccv = rubato::calculate_cutoff::<f32>(len, rubato::WindowFunction::BlackmanHarris2) as f64;
+            fc * ratio.min(1.0) < argf(args, "lobes", 0.1) * (1.0 - ccv) && excess <= argf(args, "max_excess_dB", 6.0)
+        }
         // the last processing call runs a ramp
         "ramp_in_last_call" => cs.last().map(|c| c.r_cur != c.r_tgt).unwrap_or(false),
         // any ramp anywhere before the violation
